@@ -534,7 +534,10 @@ Definition run_script (s : list Z) : list Z :=
         run_machine (tb_new_prog maxt) (fun m => [m LTok / SCALE; 0])
                     (tb_new_mem maxt initial) (map tb_decode pre) (map (map tb_decode) ths) sched
       else
-        let b := ab_cfg (zn s 1) (zn s 2) (zn s 3) (zn s 4) in
+        (* AimdBudgetBuilder::build (/repo cf1b0d8): min_budget not set (script: p0 < 0) means the
+           default floor 10, or max_budget when that is lower *)
+        let min_b := if (kind =? 3) && (zn s 1 <? 0) then Z.min 10 (zn s 2) else zn s 1 in
+        let b := ab_cfg min_b (zn s 2) (zn s 3) (zn s 4) in
         if kind =? 3 then
           run_machine (ab_prog b (dec_q (zn s 5) (zn s 6))) (fun m => [m LTok; 0])
                       (ab_mem b) (map abd_decode pre) (map (map abd_decode) ths) sched
